@@ -516,7 +516,7 @@ fn quick_pair_ops() -> Vec<Op> {
 /// the operations used for the longest sequences
 fn core_ops() -> Vec<Op> {
     use Op::*;
-    vec![SameSizeKeepMtime(0), Touch(0), Chmod(0), Delete(0), ToDir(0), SwapLinkAndFile(0), Delete(2), DirToFile, Create(0), Create(1), Create(4), Create(5), Create(11), RecreateTrackedDir]
+    vec![SameSizeKeepMtime(0), Touch(0), Chmod(0), Delete(0), ToDir(0), SwapLinkAndFile(0), Delete(2), DirToFile, Create(0), Create(1), Create(4), Create(5)]
 }
 
 pub fn run(run: &'static Run) {
@@ -532,7 +532,7 @@ pub fn run(run: &'static Run) {
         alphabet,
         NEW_PATHS,
         if thorough { format!(" and every sequence of length 3 over the {} core operations {:?}", core.len(), core) } else { String::new() },
-        if thorough { ", -1 (racily clean, index older than the file)" } else { "; -1 only for sequences with a same-size same-mtime edit, +10 for pairs only if they contain an edit/touch of a tracked file" },
+        if thorough { ", -1 (racily clean, index older than the file; for singles and for every sequence with a same-size same-mtime edit)" } else { "; -1 only for sequences with a same-size same-mtime edit, +10 for pairs only if they contain an edit/touch of a tracked file" },
     ));
     run.assume("oracle: git 2.39.5 `status --porcelain=v2 -z --no-renames --untracked-files=normal --ignored=traditional` / `--untracked-files=all --ignored=matching` with GIT_OPTIONAL_LOCKS=0 (the oracle never rewrites the index); the expectation for untracked mode `no` is the tracked part of git's answer (checked to be identical in both modes)");
     run.assume("core.trustctime=false in the fixture so that outcomes do not depend on the wall clock (ctime cannot be set); all mtimes are whole seconds; git 2.39.5 is built without USE_NSEC");
@@ -552,7 +552,7 @@ pub fn run(run: &'static Run) {
                 // quick: pairs that do not touch stat-sensitive state are only run against the racy index (every unchanged file gets a content check)
                 let stat_sensitive = ops.iter().any(|o| matches!(o, Op::SameSizeKeepMtime(_) | Op::SameSizeBumpMtime(_) | Op::GrowKeepMtime(_) | Op::Touch(_)));
                 for index_age in [10i8, 0, -1] {
-                    if index_age == -1 && !(thorough || stealth) {
+                    if index_age == -1 && !((thorough && ops.len() <= 1) || stealth) {
                         continue;
                     }
                     if index_age == 10 && !thorough && ops.len() == 2 && !stat_sensitive {
